@@ -739,6 +739,12 @@ def check_result_shape(r, node_ids, names, nested=False):
     return None
 
 
+C12_TRACE_THEOREMS = ["Acv.C12Trace.branches_have_literals", "Acv.C12Trace.results_complete", "Acv.C12Trace.results_complete_env",
+                      "Acv.C12Trace.traceOK_spelled", "Acv.C12Trace.path_rendering_nonempty", "Acv.C12Trace.component_nonempty",
+                      "Acv.C12Trace.trace_entry_per_literal", "Acv.C12Trace.one_result_per_firing_branch", "Acv.C12Trace.results_iff_fires",
+                      "Acv.C12Trace.results_iff_reported", "Acv.C12Trace.results_iff_fails", "Acv.C12Trace.improper_empty_trace"]
+
+
 def check_C12(ctx):
     broken = []
     try:
@@ -746,6 +752,7 @@ def check_C12(ctx):
     except Broken as b:
         return conclude(ctx, [b])
     broken += prove(ctx, "Acv.Props.C12", C12_THEOREMS)
+    broken += prove(ctx, "Acv.Props.C12Trace", C12_TRACE_THEOREMS)
     try:
         lines = gen_cases("c12", 80 if ctx.quick() else 2500, ctx.seed * 1000 + 5)
         impl = run_impl(lines)
@@ -807,6 +814,21 @@ def check_C12(ctx):
                     ctx.brk("C12:" + desc[0], desc[1], {"case": {k: case[k] for k in case if k != "data"}, "report": doc})
                 else:
                     ctx.violation("C12:" + desc[0], desc[1], {"case": {k: case[k] for k in case if k != "data"}, "report": doc})
+        # the trace model (Acv/Model/Trace.lean): which results with which trace entries and sub-results the policy reports
+        import tracecmp
+        tl = [json.dumps({"op": "c12t", "graph": c["graph"], "atoms": c["atoms"], "paths": c["paths"], "validations": c["validations"]}) for (c, _, _, _) in keep]
+        tmodel = run_model(tl) if tl else []
+        tbad = 0
+        for (case, i, doc, results), tm in zip(keep, tmodel):
+            if "error" in tm:
+                tbad += 1
+                ctx.brk("C12:trace-model-error", "trace model driver rejected the case: " + tm["error"], {"case": {k: case[k] for k in case if k != "data"}})
+                continue
+            diff = tracecmp.trace_difference(doc, tm)
+            if diff:
+                tbad += 1
+                ctx.brk("C12:trace-model", "traces of the real report differ from the trace model: " + diff, {"case": {k: case[k] for k in case if k != "data"}, "report": doc})
+        ctx.oblige("correspondence:results, trace entries (component, path) and sub-results of real reports = trace model (one entry per literal of a firing branch)", tbad == 0)
         ctx.coverage.setdefault("streams", {})["c12"] = dict(stats, reports=len(keep))
         ctx.coverage["evaluations"] = len(lines)
         ctx.coverage["distinct_nontrivial"] = sum(1 for (_, _, _, rs) in keep if rs)
@@ -816,7 +838,7 @@ def check_C12(ctx):
     except Broken as b:
         broken.append(b)
     ctx.coverage["rule"] = ("random declarative profiles with nested/quantified constraints wrapped 1..3 levels deep (several traces per result, several sub-results per trace), validations on all three levels, link-heavy graphs; "
-                            "every @id of the real report is compared with the Lean model of defineIdRecursively; non-trivial = the report has results")
+                            "every @id of the real report is compared with the Lean model of defineIdRecursively; results, their trace entries (component, path) and nested sub-results are compared with the Lean trace model; unusual legal message forms and hostile validation names; non-trivial = the report has results")
     ctx.assumptions += ["the result shape (which keys hold typed children) is whatever the real report contains: each real result tree is checked against the decidable WF predicate the uniqueness theorem needs"]
     return conclude(ctx, broken, trusted=TRUST_COMMON)
 
